@@ -210,6 +210,64 @@ class ApiBackend:
             out.append((r, self.snapshot(ordered)))
         return out
 
+    async def run_steps(self, tree, steps, ordered=False):
+        """Primitive API steps with several handles open at once (the backend API as the property quantifies over it:
+        open / seek / read / write / close are separate operations, anything may happen in between):
+          ('h_open', slot, parts, mode) | ('h_seek', slot, off) | ('h_read', slot, n) | ('h_write', slot, bytes)
+          | ('h_close', slot) | any op of api_op
+        -> [(observation, tree after)] per step, then one entry per handle still open (closed in slot order), from a
+        fresh copy of `tree`.  Every exception is an observation; a step on a slot that holds no handle is ['skip']."""
+        self.reset(tree)
+        handles = {}
+        out = []
+
+        async def one(st):
+            tag = st[0]
+            if not tag.startswith("h_"):
+                return await api_op(self.pio, self.root, st, ordered_list=ordered)
+            slot = st[1]
+            try:
+                if tag == "h_open":
+                    if slot in handles:
+                        return ["skip"]
+                    handles[slot] = await self.pio.open(self.root.joinpath(*st[2]), mode=st[3])
+                    return ["ok", "handle"]
+                f = handles.get(slot)
+                if f is None:
+                    return ["skip"]
+                if tag == "h_seek":
+                    return ["ok", await f.seek(st[2])]
+                if tag == "h_read":
+                    return ["ok", bytes(await f.read(st[2]))]
+                if tag == "h_write":
+                    return ["ok", await f.write(st[2])]
+                if tag == "h_close":
+                    del handles[slot]
+                    return ["ok", await f.close()]
+                raise AssertionError(st)
+            except aioftp.PathIOError as e:
+                return err_of(e)
+            except AssertionError:
+                raise
+            except Exception as e:  # anything escaping universal_exception
+                return ["exc", type(e).__name__]
+
+        try:
+            for st in steps:
+                r = await one(st)
+                out.append((r, self.snapshot(ordered)))
+            for slot in sorted(handles):
+                r = await one(("h_close", slot))
+                out.append((r, self.snapshot(ordered)))
+        finally:
+            for f in list(handles.values()):   # never leak a descriptor into the next sequence
+                try:
+                    await f.close()
+                except Exception:
+                    pass
+            handles.clear()
+        return out
+
     def cleanup(self):
         if self.kind != "memory":
             shutil.rmtree(self.dir, ignore_errors=True)
